@@ -490,14 +490,23 @@ def check_serialized(ctx):
                         return True
                     return False
                 body = [b for b in g.node.body if not inert(b)]
-                if not (len(body) == 1 and isinstance(body[0], ast.Return)
-                        and isinstance(body[0].value, ast.Call)
-                        and (prog.resolve(g.module, body[0].value.func)
+                ret = body[0].value if len(body) == 1 and isinstance(
+                    body[0], ast.Return) else None
+                # ... possibly re-spelled character by character (escapes
+                # for what is not printable ASCII) on the way out
+                if isinstance(ret, ast.Call) and len(ret.args) == 1 and \
+                        not ret.keywords:
+                    h = prog.callee_of(g, ret)
+                    if h is not None and prog.is_respelling(h):
+                        ret = ret.args[0]
+                if not (isinstance(ret, ast.Call)
+                        and (prog.resolve(g.module, ret.func)
                              or '').endswith(SERIALIZERS)
-                        and len(body[0].value.args) == 1
-                        and U(body[0].value.args[0]) == g.params[0]
-                        and not any(k.arg == 'indent'
-                                    for k in body[0].value.keywords)):
+                        and len(ret.args) == 1
+                        and U(ret.args[0]) == g.params[0]
+                        and not any(k.arg in ('indent', 'separators',
+                                              'default', 'cls')
+                                    for k in ret.keywords)):
                     ok = False
                     detail = 'the helper %s does more than serialise its ' \
                         'argument: the rule value written to the file is ' \
